@@ -245,6 +245,9 @@ GRAMMAR_RUNS = [
     ('leftright', ['v:1', 'h:1'], 'pmcfg', 'gram'), ('optimal', ['v:1', 'h:2'], 'rcg', 'm'),
     ('leftright', ['v:2', 'h:0'], 'pmcfg', 'x1'), ('leftright', ['nofanout'], 'pmcfg', 'x2'),
     ('optimal', ['v:2', 'h:1', 'nofanout'], 'pmcfg', 'x3'), ('leftright', ['v:1', 'h:0', 'nofanout'], 'rcg', 'x4'),
+    # one Markov parameter given, the other left to its default; a parameter given as 0
+    ('leftright', ['v:2'], 'pmcfg', 'x5'), ('optimal', ['h:1'], 'pmcfg', 'x6'), ('leftright', ['v:0', 'h:1'], 'pmcfg', 'x7'),
+    ('leftright', ['v:0'], 'rcg', 'x8'),
 ]
 
 
